@@ -575,13 +575,76 @@ func hostileInputs(r *rng, t *genType, enc []byte, n int) [][]byte {
 	return out
 }
 
+// lengths of every list and text anywhere inside a message (by reflection)
+func collectLens(v reflect.Value, out map[int]bool, depth int) {
+	if depth > 6 {
+		return
+	}
+	switch v.Kind() {
+	case reflect.Ptr, reflect.Interface:
+		if !v.IsNil() {
+			collectLens(v.Elem(), out, depth+1)
+		}
+	case reflect.Struct:
+		for i := 0; i < v.NumField(); i++ {
+			collectLens(v.Field(i), out, depth+1)
+		}
+	case reflect.Slice:
+		out[v.Len()] = true
+		for i := 0; i < v.Len() && i < 3; i++ {
+			collectLens(v.Index(i), out, depth+1)
+		}
+	case reflect.String:
+		out[v.Len()] = true
+	}
+}
+
+// inflated counts and lengths: wherever the encoding holds the length of one of the message's lists or texts as a
+// 1/2/4-byte integer (either order), claim far more - keeping every element that follows intact, so that a reader
+// sees many well-formed elements before the data runs out
+func inflatedInputs(r *rng, m any, enc []byte, max int) [][]byte {
+	lens := map[int]bool{}
+	collectLens(reflect.ValueOf(m), lens, 0)
+	var out [][]byte
+	for n := range lens {
+		if n < 2 {
+			continue
+		}
+		for _, w := range []int{4, 2, 1} {
+			if w < 4 && n >= 1<<(8*uint(w)) {
+				continue
+			}
+			for _, le := range []bool{false, true} {
+				pat := countBytes(le, w, uint64(n))
+				for off := 0; off+w <= len(enc); off++ {
+					if !bytes.Equal(enc[off:off+w], pat) {
+						continue
+					}
+					for _, claim := range []uint64{0xffffffff, 0x02000000, 0x7fffffff, uint64(n) * 1000} {
+						c := append([]byte{}, enc...)
+						copy(c[off:off+w], countBytes(le, w, claim&(1<<(8*uint(w))-1)))
+						out = append(out, c)
+					}
+					if len(out) >= max {
+						return out
+					}
+				}
+				if w == 1 {
+					break
+				}
+			}
+		}
+	}
+	return out
+}
+
 func oracleC09(rep *report, r *rng) {
 	rep.Rule = "every type x hostile byte strings (empty, zeros, 0xff runs, random, every kind of truncation, bit flips, maximal / near-maximal counts and lengths at random positions, unknown discriminators) x fresh and used receivers: Decode must return normally (recover + 20 s watchdog per call)"
 	n := rounds(rep, 20, 200)
 	forTypesAndEntries(r, func(t *genType, mk func(genOpts) any, tag string) {
 		m := mk(genOpts{canonical: true, bigLists: r.chance(1, 6)})
 		_, enc := encodeFresh(m)
-		for _, in := range hostileInputs(r, t, enc, n) {
+		for _, in := range append(hostileInputs(r, t, enc, n), inflatedInputs(r, m, enc, 16)...) {
 			if rep.failed() {
 				return
 			}
@@ -645,6 +708,11 @@ func oracleC10(rep *report, r *rng) {
 		_, enc := encodeFresh(m)
 		ins := hostileInputs(r, t, enc, n)
 		ins = append(ins, enc)
+		forceListLen = 20
+		mb := mk(genOpts{canonical: true})
+		forceListLen = 0
+		_, encb := encodeFresh(mb)
+		ins = append(ins, inflatedInputs(r, mb, encb, 48)...)
 		for _, in := range ins {
 			if rep.failed() {
 				return
